@@ -100,6 +100,7 @@ class Prop(PropBase):
         env = f'{L.coq_mods(L.case_mods(case))} std_builtins {L.coq_list([L.coq_str(m) for m in loaded0])}'
         if case['kind'] == 'eval' and case.get('steps'):
             acts = L.coq_list([f'(AImport {L.coq_list([L.coq_stmt(x) for x in st[1]])})' if st[0] == 'import'
+                               else f'(ADrop {L.coq_str(st[1])})' if st[0] == 'drop'
                                else f'(AEval {L.coq_expr(st[1])})' for st in case['steps']])
             return f'(session_case_ld {env} {n0} {heap} {ctx} {acts})'
         if case['kind'] == 'eval':
@@ -169,8 +170,10 @@ class Prop(PropBase):
                 else:
                     out.append(fail('eval-no-leak', f'evaluating {src!r} {verb} context key {k!r}',
                                     'eval-changes-context'))
+            dropped = {st[1] for st in case.get('steps', []) if st[0] == 'drop'}
             for k in removed:
-                out.append(fail('eval-no-leak', f'evaluating {src!r} removed context key {k!r}', 'eval-removes-key'))
+                if k not in dropped:
+                    out.append(fail('eval-no-leak', f'evaluating {src!r} removed context key {k!r}', 'eval-removes-key'))
             # value agrees with plain eval in a fresh {**imports, **context}.  The statement promises
             # reads of context keys, builtins and imports; it says nothing about how a name bound by
             # := inside a comprehension of the same expression reads back (CPython makes that a
@@ -181,7 +184,8 @@ class Prop(PropBase):
                 a, b = L.module_level_walrus(case['exprs'][i])
                 calls_id = any(x[0] == 'call' and x[1] == ['name', 'id'] for x in L.walk(case['exprs'][i]))
                 if mine != want and not calls_id and not b and not obs.get('pyimport_error'):      # id() of two copies differs by nature
-                    reads_import = any(x[0] == 'name' and x[1] in imported and x[1] not in case_keys
+                    keys_now = set(obs.get('oracle_ctx_keys_at_eval', [[]] * (i + 1))[i]) if case.get('steps') else case_keys
+                    reads_import = any(x[0] == 'name' and x[1] in imported and x[1] not in keys_now
                                        for x in L.walk(case['exprs'][i]))
                     reads_leaked = any(x[0] == 'name' and x[1] in seen_top for x in L.walk(case['exprs'][i]))
                     fp = ('walrus-leaks-into-context' if reads_leaked
@@ -372,6 +376,8 @@ class Prop(PropBase):
                 feats.add('import:from-several-names')
         if case.get('pkg'):
             feats.add('throwaway-package')
+        if any(st[0] == 'drop' for st in case.get('steps', [])):
+            feats.add('ctx-key-hiding-import-dropped')
         if case.get('steps'):
             feats.add(f"pyimport-steps:{sum(1 for st in case['steps'] if st[0] == 'import')}")
             names = [n for st in case['steps'] if st[0] == 'import' for x in st[1] for n in L.stmt_binding_names(x)]
